@@ -258,11 +258,11 @@ func TestFixedD27TimedOutScriptReturns(t *testing.T) {
 	}
 }
 
-// D50 (known finding): IndexedState.Load deletes a record that expired while the location was not in memory straight from
-// storage, without the deleteWith cascade: the dependents of the expired rule (its "disabled" flag, say) survive, and a rule
-// added later under the same id inherits them. (C08: "deleteWith removes exactly the dependents"; C10: the flag goes with
-// the rule.)
-func TestReplayD50ExpiredAtLoadLeavesDependents(t *testing.T) {
+// D50 (repaired): IndexedState.Load deleted a record that expired while the location was not in memory straight from
+// storage, without the deleteWith cascade: the dependents of the expired rule (its "disabled" flag, say) survived, and a rule
+// added later under the same id inherited them. (C08: "deleteWith removes exactly the dependents"; C10: the flag goes with
+// the rule.) Regression test of the repair.
+func TestFixedD50ExpiredAtLoadTakesDependents(t *testing.T) {
 	ctx := NewContext("d50")
 	store, _ := NewMemStorage(ctx)
 	open := func() *Location {
@@ -293,7 +293,7 @@ func TestReplayD50ExpiredAtLoadLeavesDependents(t *testing.T) {
 	if err != nil {
 		t.Fatal(err)
 	}
-	if enabled {
-		t.Fatalf("the new r1 is enabled: the known finding D50 seems to be gone: update known_findings.json")
+	if !enabled {
+		t.Fatalf("the new r1 is disabled: the flag of the rule that expired while the location was not in memory outlived it (D50 is back)")
 	}
 }
